@@ -452,6 +452,7 @@ type obs struct {
 	vs       []*version
 	merged   mergeOut
 	fieldSvc map[fieldKey][]string
+	fedkeys  int // ConvertVersionedSchemas: 1 accepted, 2 refused with 'Invalid federation key', 0 anything else
 	queries  []qobs
 	skip     bool
 }
@@ -467,7 +468,7 @@ type qres struct {
 func main() {
 	o := vh.ParseFlags()
 	run := vh.NewRun("C09", o)
-	run.Rule = "a case is a set of services x versions of introspection schemas: 70% raw terms (a random closed base schema; versions and services derived by add/remove/retype of types, fields, arguments, input fields, enum values, union members, NON_NULL toggles at any list depth; ~1/3 of the cases allow incompatible edits, 6% ill-formed) and 30% schemas built with schemabuilder from a dynamic specification (introspection JSON taken from the implementation); non-trivial = at least two schemas are merged and the merge result differs from each single input; distinct by the canonical JSON of all inputs"
+	run.Rule = "a case is a set of services x versions of introspection schemas: 15% federation-key configurations (one federated object on 3-4 services, each a root exposing some candidate key fields and asking for some; half made valid, half random; service names drawn in random order), 55% raw terms (a random closed base schema; versions and services derived by add/remove/retype of types, fields, arguments, input fields, enum values, union members, NON_NULL toggles at any list depth; ~1/3 of the cases allow incompatible edits, 6% ill-formed) and 30% schemas built with schemabuilder from a dynamic specification (introspection JSON taken from the implementation); non-trivial = at least two schemas are merged and the merge result differs from each single input; distinct by the canonical JSON of all inputs"
 	r := vh.NewRng(o.Seed)
 
 	var cases []Case
@@ -491,9 +492,12 @@ func main() {
 		for i := 0; i < o.N; i++ {
 			cr := r.Fork()
 			var c Case
-			if cr.Chance(30) {
+			switch k := cr.Intn(100); {
+			case k < 30:
 				c = genBuiltCase(cr)
-			} else {
+			case k < 45:
+				c = genKeyCase(cr)
+			default:
 				c = genRawCase(cr)
 			}
 			c.Origin = "generated"
@@ -667,8 +671,70 @@ func main() {
 			if cerr == "" {
 				ob.fieldSvc = fs
 				run.Hist("convert:ok")
+				ob.fedkeys = 1
 			} else {
 				run.Hist("convert:error")
+				if strings.Contains(cerr, "Invalid federation key") {
+					ob.fedkeys = 2
+					run.Hist("convert:invalid-federation-key")
+				}
+			}
+			// ---- oracle (h): federation keys.  The verdict of ConvertVersionedSchemas does not depend on how the
+			// services are named; accepted <=> every key field a service asks for is exposed by every root service
+			// of the object; and what is accepted plans into sub-queries the services can answer.
+			if wf && !strings.HasPrefix(cerr, "panic:") {
+				cr := vh.NewRng(c.Seed ^ 0x6b65)
+				var ss []string
+				for _, v := range vs {
+					ss = append(ss, v.svc)
+				}
+				ss = dedupeSorted(ss)
+				for try := 0; try < 3; try++ {
+					p := make([]int, len(ss))
+					for i := range p {
+						p[i] = i
+					}
+					for i := len(p) - 1; i > 0; i-- {
+						j := cr.Intn(i + 1)
+						p[i], p[j] = p[j], p[i]
+					}
+					names := map[string]string{}
+					for i, x := range ss {
+						names[x] = fmt.Sprintf("svc%02d", p[i])
+					}
+					ren := func(s, v string) (string, string) { return names[s], v }
+					if m2 := runMerge(mkInput(vs, ren)); !m2.ok {
+						continue // the merge itself depends on the naming: oracle (a), known finding
+					}
+					_, cerr2 := runConvert(mkInput(vs, ren))
+					if (cerr == "") != (cerr2 == "") {
+						failCapped(run, idx, "convert-verdict-depends-on-naming", fmt.Sprintf("original: %q; services renamed %v: %q", short(cerr, 200), names, short(cerr2, 200)), c)
+						break
+					}
+				}
+				if viol, comparable := keyViolations(perSvc, ob.merged.s); comparable {
+					if cerr == "" && len(viol) > 0 {
+						v := viol[0]
+						failCapped(run, idx, "convert-accepts-federation-key-a-root-service-lacks", fmt.Sprintf("service %s asks for key %s of %s, root service %s does not expose it; ConvertVersionedSchemas accepts", v.asker, v.key, v.obj, v.root), c)
+					}
+					if ob.fedkeys == 2 && len(viol) == 0 {
+						failCapped(run, idx, "convert-refuses-valid-federation-keys", short(cerr, 300), c)
+					}
+					if len(viol) == 0 {
+						run.Hist("federation-keys:valid")
+					} else {
+						run.Hist("federation-keys:invalid")
+					}
+				}
+				if cerr == "" && c.Kind == "raw" {
+					nq, problems := gatewayOverMocks(mkInput(vs, nil), perSvc, ob.merged.s)
+					if nq > 0 {
+						run.Histogram["federation-keys:hop-queries-run-over-mock-services"] += nq
+					}
+					if len(problems) > 0 {
+						failCapped(run, idx, "accepted-schemas-plan-subquery-a-service-cannot-answer", short(problems[0], 600), c)
+					}
+				}
 			}
 		}
 
@@ -826,7 +892,7 @@ func main() {
 			}
 			qs = append(qs, "("+selsCoq(q.q)+", "+vh.CoqList(rs)+")")
 		}
-		terms = append(terms, fmt.Sprintf("(%d, mk_case %s %s %s %s)", ob.idx, vh.CoqList(ss), merged, vh.CoqList(fsv), vh.CoqList(qs)))
+		terms = append(terms, fmt.Sprintf("(%d, mk_case %s %s %s %s %d)", ob.idx, vh.CoqList(ss), merged, vh.CoqList(fsv), vh.CoqList(qs), ob.fedkeys))
 		if len(terms) >= shard {
 			flush()
 		}
